@@ -63,11 +63,12 @@ Example do_atom_test_evaluated :
   forallb (fun m => match fst (run m 60 w_do_atom), fst (run m 60 w_do_var) with
                     | Ok (VInt 5), Ok (VInt 3) => true | _, _ => false end) [Slip; Ref; Chk] = true.
 Proof. vm_compute; reflexivity. Qed.
-(* the loop forms evaluate their list / count / initial forms inside the scope that later holds the loop variables:
-   a closure made there sees the variable instead of the outer binding of the same name
-   (let ((x 10) (f nil)) (dolist (x (progn (setq f (lambda () x)) '(1 2))) nil) (funcall f))      10, Go: nil
-   (let ((x 10) (f nil)) (dotimes (x (progn (setq f (lambda () x)) 2)) nil) (funcall f))          10, Go: 2
-   (let ((y 1)) (funcall (do* ((f (lambda () y)) (y 5)) ((> y 0) f))))                             1, Go: 5 *)
+(* repaired (repo_fixes/C01-12, C01-13): the list form of dolist and the count form of dotimes are evaluated in the
+   enclosing scope, every variable of do* gets a scope of its own: a closure made there sees the enclosing variable
+   (let ((x 10) (f nil)) (dolist (x (progn (setq f (lambda () x)) '(1 2))) nil) (funcall f))      10
+   (let ((x 10) (f nil)) (dotimes (x (progn (setq f (lambda () x)) 2)) nil) (funcall f))          10
+   (let ((y 1)) (funcall (do* ((f (lambda () y)) (y 5)) ((> y 0) f))))                             1
+   in every mode: the guard run meets no deviation *)
 Definition w_dolist_scope :=
   [ELet [("x", I 10); ("f", ENil)]
      [EDolist "x" (EProgn [ESetq [("f", ELambda [] [EVar "x"])]; EQuote (DList [DInt 1; DInt 2])]) None [ENil];
@@ -79,13 +80,17 @@ Definition w_dotimes_scope :=
 Definition w_dostar_scope :=
   [ELet [("y", I 1)]
      [EFuncall (EDo true [("f", ELambda [] [EVar "y"], None); ("y", I 5, None)] (EPrim PGt [EVar "y"; I 0]) [EVar "f"] []) []]].
-Lemma loop_scope_refuted :
-  forallb (fun p => guardb 60 p) [w_dolist_scope; w_dotimes_scope; w_dostar_scope] = false /\
-  fst (runM 60 w_dolist_scope) = Ok VNil /\ fst (runS 60 w_dolist_scope) = Ok (VInt 10) /\
-  fst (runM 60 w_dotimes_scope) = Ok (VInt 2) /\ fst (runS 60 w_dotimes_scope) = Ok (VInt 10) /\
-  fst (runM 60 w_dostar_scope) = Ok (VInt 5) /\ fst (runS 60 w_dostar_scope) = Ok (VInt 1) /\
-  guardb 60 w_dolist_scope = false /\ guardb 60 w_dotimes_scope = false /\ guardb 60 w_dostar_scope = false.
-Proof. repeat split; vm_compute; reflexivity. Qed.
+Example loop_forms_outer_scope :
+  forallb (fun m => match fst (run m 60 w_dolist_scope), fst (run m 60 w_dotimes_scope), fst (run m 60 w_dostar_scope) with
+                    | Ok (VInt 10), Ok (VInt 10), Ok (VInt 1) => true | _, _, _ => false end) [Slip; Ref; Chk] = true.
+Proof. vm_compute; reflexivity. Qed.
+(* do* is nested binding: with at least one variable, (do* ((x e) b2 .. bk) ...) evaluates e in the enclosing scope and
+   the remaining init forms in a new scope that holds only x - exactly the way let* proceeds *)
+Lemma dostar_inits_like_letstar : forall m ev st sc x e s bs,
+  ev_inits_seq m ev st sc ((x, e, s) :: bs) =
+  bind (ev st sc e) (fun v st1 => bindo (store_red m v) st1 (fun a =>
+    ev_inits_seq m ev (snd (alloc st1 [(x, a)])) ((List.length (frames st1), 1) :: sc) bs)).
+Proof. reflexivity. Qed.
 
 (* ------------------------------------------------------------------------------------------ non-vacuity *)
 (* the guard is satisfiable by programs that use closures, assignment through closures, shadowing, loops, recursion
